@@ -53,6 +53,7 @@ pub mod c12;
 pub mod c13;
 pub mod c14;
 pub mod c16;
+pub mod c19;
 pub mod c20;
 pub mod subs;
 pub mod work;
